@@ -295,6 +295,8 @@ def mk_algo(bt, d, tickers, dates, data, perturb=None):
         return a.RunOnce()
     if n == "RunEveryNPeriods":
         return a.RunEveryNPeriods(d[1], d[2])
+    if n == "RunAfterDays":
+        return a.RunAfterDays(d[1])
     if n == "RunAfterDate":
         return a.RunAfterDate(d[1])
     if n == "RunOnDate":
